@@ -190,9 +190,12 @@ def run(chk, prog):
     chk.check(ok, "R4", A.loc(mainf, rets[0]) if rets else mainf.where, "after the loop the only way out is the unconditional `return EXIT_SUCCESS` at the end (%d returns, %d exits)" % (len(rets), len(exits)),
               "after-loop:returns:%d:exits:%d" % (len(rets), len(exits)))
     loop_ids = {y["id"] for y in A.walk(loop)}
-    fin = [x for x in A.walk(mainf["body"]) if x["k"] == "IfStmt" and x["line"] > loop["eline"] and M.MainModel.null_test(x["cond"]) == ("hdf_file", True)]
-    A.require(fin, "main: final-record block not found")
-    fb = fin[0]
+    fb, fconj = M.MainModel(prog).final_block()
+    # "write one final record": the block runs whenever a results file is open - its condition is that test and nothing else (an extra
+    # conjunct such as `outstep > 0` drops the final record for some configuration)
+    extra_c = [c_ for c_ in fconj if M.MainModel.null_test(c_) != ("hdf_file", True)]
+    chk.check(len(fconj) >= 1 and not extra_c, "R4", A.loc(mainf, fb), "the final record is written whenever the results file is open (condition: %s)"
+              % " && ".join(A.show(c_)[:40] for c_ in fconj), "final:condition:%s" % [A.show(c_)[:30] for c_ in extra_c])
     chk.check(not A.enclosing(idx, fb, {"IfStmt", "WhileStmt", "ForStmt", "SwitchStmt", "CXXTryStmt"}), "R4", A.loc(mainf, fb),
               "the final-record block is reached on every path from the loop exit whenever the results file is open", "final:guard")
     throws = [x for x in after_loop if x["k"] == "CXXThrowExpr"]
